@@ -164,10 +164,29 @@ func (lineParser *LineParser) parseMarkup() (*ParseResult, error) {
 		}
 	}
 
+	text, attributes := trimTextAndAdjustAttributes(builder.String(), attributes)
+
 	return &ParseResult{
-		Text:       strings.TrimSpace(builder.String()),
+		Text:       text,
 		Attributes: attributes,
 	}, nil
+}
+
+// trimTextAndAdjustAttributes removes the leading and trailing whitespace of text, then shifts
+// and clips the attributes so that they still designate the same characters of the trimmed text.
+func trimTextAndAdjustAttributes(text string, attributes []Attribute) (string, []Attribute) {
+	withoutLeadingWhitespace := strings.TrimLeftFunc(text, unicode.IsSpace)
+	removedCount := len([]rune(text)) - len([]rune(withoutLeadingWhitespace))
+	trimmedText := strings.TrimRightFunc(withoutLeadingWhitespace, unicode.IsSpace)
+	trimmedLength := len([]rune(trimmedText))
+
+	clip := func(position int) int { return max(0, min(trimmedLength, position-removedCount)) }
+	for i := range attributes {
+		start, end := clip(attributes[i].Position), clip(attributes[i].Position+attributes[i].Length)
+		attributes[i].Position, attributes[i].Length = start, end-start
+	}
+
+	return trimmedText, attributes
 }
 
 func (lineParser *LineParser) buildAttributesFromMarkers(markers []attributeMarker) ([]Attribute, error) {
